@@ -93,6 +93,10 @@ type RowSpec struct {
 	Sep   bool       `json:"sep,omitempty"`
 	How   int        `json:"how,omitempty"`
 	Cells []ItemSpec `json:"cells"`
+	// Late cells are appended through AllRows()[i].Add(...) once LateAfter
+	// further rows have joined the table (or at the end of the build).
+	Late      []ItemSpec `json:"late,omitempty"`
+	LateAfter int        `json:"late_after,omitempty"`
 }
 
 type TableSpec struct {
@@ -101,6 +105,10 @@ type TableSpec struct {
 	Rows     []RowSpec   `json:"rows"`
 	Align    map[int]int `json:"align,omitempty"` // column -> 1 left, 2 right, 3 centre
 	Skip     map[int]int `json:"skip,omitempty"`  // column -> 1 true, 2 false, 3 non-bool
+	// Stages: after the body rows with these indices an intermediate render
+	// happens through a wrapper that lives across the whole build (harnesses
+	// that opt in: BuildRender).
+	Stages []int `json:"stages,omitempty"`
 }
 
 func makeItems(specs []ItemSpec) []interface{} {
@@ -114,7 +122,51 @@ func makeItems(specs []ItemSpec) []interface{} {
 var alignVals = map[int]interface{}{1: align.Left, 2: align.Right, 3: align.Center}
 
 // Build replays the spec on t through the public API only.
-func (ts TableSpec) Build(t tabular.Table) {
+func (ts TableSpec) Build(t tabular.Table) { ts.BuildStaged(t, nil) }
+
+// BuildRender builds the table and renders it.  With stages, the wrapper (made
+// by mk before any building call) is reused: it renders the partial table at
+// every stage and the complete one at the end; what is returned is the last
+// render.  Without stages the wrapper is made after the build.
+func (ts TableSpec) BuildRender(t tabular.Table, mk func(tabular.Table) func() (string, error)) Outcome {
+	var render func() (string, error)
+	if len(ts.Stages) > 0 {
+		render = mk(t)
+	}
+	ts.BuildStaged(t, func() { capture(render) })
+	if render == nil {
+		render = mk(t)
+	}
+	return capture(render)
+}
+
+// BuildStaged is Build with a hook called after each body row listed in Stages.
+func (ts TableSpec) BuildStaged(t tabular.Table, hook func()) {
+	type pending struct {
+		row, left int
+		cells     []ItemSpec
+	}
+	var late []pending
+	flush := func(all bool) {
+		keep := late[:0]
+		for _, p := range late {
+			if all || p.left <= 0 {
+				if rows := t.AllRows(); p.row < len(rows) {
+					for _, it := range makeItems(p.cells) {
+						rows[p.row].Add(tabular.NewCell(it))
+					}
+				}
+			} else {
+				p.left--
+				keep = append(keep, p)
+			}
+		}
+		late = keep
+	}
+	staged := map[int]bool{}
+	for _, s := range ts.Stages {
+		staged[s] = true
+	}
 	addHeader := func() {
 		if ts.Header != nil {
 			t.AddHeaders(makeItems(*ts.Header)...)
@@ -148,7 +200,16 @@ func (ts TableSpec) Build(t tabular.Table) {
 		default:
 			t.AddRowItems(makeItems(r.Cells)...)
 		}
+		flush(false)
+		if len(r.Late) > 0 {
+			late = append(late, pending{i, r.LateAfter, r.Late})
+			flush(false)
+		}
+		if hook != nil && staged[i] {
+			hook()
+		}
 	}
+	flush(true)
 	if !done {
 		addHeader()
 	}
@@ -178,12 +239,12 @@ func (ts TableSpec) Size() int {
 		n += 1 + len(*ts.Header)
 	}
 	for _, r := range ts.Rows {
-		n += 1 + len(r.Cells)
+		n += 1 + len(r.Cells) + 2*len(r.Late)
 		for _, c := range r.Cells {
 			n += len(c.B) + len(c.S)
 		}
 	}
-	return n + len(ts.Align) + len(ts.Skip)
+	return n + len(ts.Align) + len(ts.Skip) + 3*len(ts.Stages)
 }
 
 // ---------------------------------------------------------------- view
@@ -217,6 +278,45 @@ func viewCells(cs []tabular.Cell) []VCell {
 		out[i] = vc
 	}
 	return out
+}
+
+// SpecView computes the view a table built from this spec must present, from
+// the spec alone (fresh cells made from the items; the shape, the column count
+// and the column properties as the building calls define them) - never read
+// back from the table under test, so that a renderer's output is judged
+// against what was put in, not against whatever the table now holds.
+func (ts TableSpec) SpecView() View {
+	mk := func(items []ItemSpec) *[]VCell {
+		cs := make([]tabular.Cell, len(items))
+		for i := range items {
+			it, _ := items[i].Make()
+			cs[i] = tabular.NewCell(it)
+		}
+		vc := viewCells(cs)
+		return &vc
+	}
+	v := View{}
+	if ts.Header != nil {
+		v.Header = mk(*ts.Header)
+		v.NCols = len(*ts.Header)
+	}
+	for _, r := range ts.Rows {
+		if r.Sep {
+			v.Rows = append(v.Rows, nil)
+			continue
+		}
+		all := append(append([]ItemSpec{}, r.Cells...), r.Late...)
+		if len(all) > v.NCols {
+			v.NCols = len(all)
+		}
+		v.Rows = append(v.Rows, mk(all))
+	}
+	for i := 0; i <= v.NCols; i++ {
+		a, s := ts.Align[i], ts.Skip[i]
+		v.Align = append(v.Align, a)
+		v.Skip = append(v.Skip, s)
+	}
+	return v
 }
 
 // extractView reads, through the public API only, everything a renderer can
